@@ -2,6 +2,9 @@ import HL.Model.Balance
 import HL.Spec.BalanceSpec
 import HL.Lemmas.Dec
 import HL.Lemmas.Balance
+import HL.Model.Num
+import HL.Spec.Number
+import HL.Lemmas.Num
 
 /-!
   C02 "Unbalanced-transaction verdicts are exact" — the arithmetic core.
@@ -308,5 +311,95 @@ theorem pinned_zero_quantity_total_cost_counterexample :
     checkPinned zeroTotalTx = some ⟨false, [(bs "USD", ⟨5, 0⟩)], -1⟩ ∧
     check zeroTotalTx = some ⟨true, [], -1⟩ := by
   constructor <;> decide +kernel
+
+/-! ### number notations -/
+
+/-- **normalize_value.**  For every notation of DESIGN 4.3 — any number of digits, digit groups
+    written with ',' '.' or blanks, decimal mark '.' or ',', trailing mark, exponent with or
+    without sign, either sign of the number — that is well formed and not of the shape side
+    condition A excludes, the chain parseAmount runs on the Number token (sign prefix, blank
+    removal, `normalizeNumber`, `decimal.NewFromString`, exponent bound) yields a decimal whose
+    exact value is the value written. -/
+theorem normalize_value (n : G.Number) (hwf : G.wf n = true) (hA : G.shapeA n = false) :
+    (Num.quantity n.neg (G.render n)).map Dec.toRat = some (G.value n) := by
+  have hprep := Num.prepare_render n hwf hA
+  simp only [G.wf, Bool.and_eq_true, decide_eq_true_eq] at hwf
+  obtain ⟨⟨⟨⟨⟨⟨⟨w1, _⟩, w3⟩, _⟩, _⟩, w6⟩, w7⟩, w8⟩ := hwf
+  have hm : n.mark.isSome = false → n.frac = [] := by
+    intro h
+    cases hmk : n.mark with
+    | none => rw [hmk] at w3; simpa using w3
+    | some m => rw [hmk] at h; cases h
+  have hexp : ∀ e, n.exp = some e → e.digits ≠ [] ∧ G.natOf e.digits ≤ 2147483647 := by
+    intro e he
+    rw [he] at w6
+    simpa using w6
+  have hof := Num.ofString_canon n.neg n.intDigits n.frac n.mark.isSome n.exp w1 hm hexp w7 w8
+  unfold Num.quantity
+  rw [hprep]
+  unfold Num.canon
+  rw [hof]
+  have hb : ¬ (G.expValue n.exp - (n.frac.length : Int) > Num.maxAmountExponent ∨
+      G.expValue n.exp - (n.frac.length : Int) < -Num.maxAmountExponent) := by
+    unfold Num.maxAmountExponent; omega
+  simp only [hb, if_false, Option.map_some, Option.some.injEq]
+  rw [Num.toRat_canon]
+  unfold G.value G.magnitude
+  cases n.neg <;> simp
+
+/-- what reaches `NewFromString` is the canonical spelling `[-]digits[.digits][E±digits]`. -/
+theorem normalize_canonical (n : G.Number) (hwf : G.wf n = true) (hA : G.shapeA n = false) :
+    Num.prepare n.neg (G.render n) = Num.canon n := Num.prepare_render n hwf hA
+
+def dg (s : String) : List G.Digit := s.toList.map fun c => Fin.ofNat 10 (c.toNat - 48)
+
+/-! Non-vacuity: one notation of every class of 4.3 satisfies the hypotheses (and the model
+    computes the value written). -/
+def nPlain : G.Number := ⟨false, dg "123", none, none, [], none⟩                       -- 123
+def nDot : G.Number := ⟨true, dg "1", none, some 46, dg "5", none⟩                     -- -1.5
+def nComma : G.Number := ⟨false, dg "1", none, some 44, dg "5", none⟩                  -- 1,5
+def nGroupCommaDot : G.Number := ⟨false, dg "1234", some 44, some 46, dg "56", none⟩   -- 1,234.56
+def nGroupDotComma : G.Number := ⟨false, dg "1234", some 46, some 44, dg "56", none⟩   -- 1.234,56
+def nGroupSpace : G.Number := ⟨false, dg "1234", some 32, some 44, dg "56", none⟩      -- 1 234,56
+def nGroupInt3 : G.Number := ⟨false, dg "1234567", some 44, none, [], none⟩            -- 1,234,567
+def nGroupInt1 : G.Number := ⟨false, dg "1234", some 46, none, [], none⟩               -- 1.234 (grouped)
+def nTrailing : G.Number := ⟨false, dg "12", none, some 46, [], none⟩                  -- 12.
+def nExp : G.Number := ⟨false, dg "1", none, some 46, dg "5", some ⟨false, .minus, dg "2"⟩⟩  -- 1.5e-2
+def nExpPlus : G.Number := ⟨false, dg "1", none, none, [], some ⟨true, .plus, dg "2"⟩⟩       -- 1E+2
+def nGroupExp : G.Number := ⟨false, dg "1234", some 44, none, [], some ⟨true, .none, dg "2"⟩⟩ -- 1,234E2
+
+example : [nPlain, nDot, nComma, nGroupCommaDot, nGroupDotComma, nGroupSpace, nGroupInt3, nGroupInt1,
+    nTrailing, nExp, nExpPlus, nGroupExp].all (fun n => G.wf n && !G.shapeA n) = true := by decide +kernel
+
+example : G.render nGroupCommaDot = bs "1,234.56" ∧ G.render nGroupSpace = bs "1 234,56" ∧
+    G.render nExp = bs "1.5e-2" ∧ G.render nGroupInt3 = bs "1,234,567" := by decide +kernel
+
+example : Num.quantity false (bs "1 234,56") = some ⟨123456, -2⟩ ∧
+    Num.quantity false (bs "1.5E3") = some ⟨15, 2⟩ ∧
+    Num.quantity true (bs "1,234,567") = some ⟨-1234567, 0⟩ := by decide +kernel
+
+/-- The shape side condition A excludes really is read differently: `1,234` written to mean
+    1.234 (decimal comma, three decimals) is read as the grouped integer 1234 — the project's
+    documented disambiguation rule. -/
+theorem sideA_counterexample :
+    let n : G.Number := ⟨false, dg "1", none, some 44, dg "234", none⟩
+    G.wf n = true ∧ G.shapeA n = true ∧ G.render n = bs "1,234" ∧
+    Num.quantity n.neg (G.render n) = some ⟨1234, 0⟩ ∧
+    (Num.quantity n.neg (G.render n)).map Dec.toRat ≠ some (G.value n) := by
+  decide +kernel
+
+/-- Same for the point: `1.234` meant as a decimal is read as 1234. -/
+theorem sideA_point_counterexample :
+    let n : G.Number := ⟨false, dg "1", none, some 46, dg "234", none⟩
+    G.shapeA n = true ∧ G.render n = bs "1.234" ∧
+    Num.quantity n.neg (G.render n) = some ⟨1234, 0⟩ := by
+  decide +kernel
+
+/-- The pinned `normalizeNumber` (before fix b74e439) applied its rule to the whole token:
+    `1.5E3` — three characters after the point — lost the point and became 15E3 = 15000. -/
+theorem pinned_exponent_counterexample :
+    Dec.ofString (Num.normalizeMantissa (bs "1.5E3")) = some ⟨15, 3⟩ ∧
+    Dec.ofString (Num.normalizeNumber (bs "1.5E3")) = some ⟨15, 2⟩ := by
+  decide +kernel
 
 end HL.Props.C02
